@@ -48,6 +48,45 @@ private theorem lookup_tree (t : TreeInfo) (g : IniSec) : (docList t g).lookup s
   have h1 : ¬ sGeneral = sTree := by decide
   simp [lookup_cons_eq, h1]
 
+/-- **The `src` fallback is for `src` trees only** (obligation on the generated facts).  The branches of `General.serialize`
+that write `packagedir` / `repository`, as the translator reads them from the source on every run: each option is the
+variant's `packages` / `repository` path, and falls back to `source_packages` / `source_repository` exactly when `tree.arch` is
+one of the listed constants — which must be `src` and nothing else; no other statement of the function looks at
+`tree.arch` or at a path.  `generalPath` (in `Mirrors` below) consults these generated constants. -/
+theorem C17_src_fallback_documented :
+    Gen.TREEINFO_GENERAL_PATH_BRANCHES =
+      [("packagedir".toList, "packages".toList, "source_packages".toList, ["src".toList]),
+       ("repository".toList, "repository".toList, "source_repository".toList, ["src".toList])]
+    ∧ Gen.TREEINFO_GENERAL_PATH_BRANCHES_EXACT = true := by decide
+
+/-- …hence `generalPath` is what the property text says: the path, else — in a tree whose arch is exactly `src` — the source path -/
+theorem C17_generalPath_plain (arch : Str) (paths : List (Str × Str)) :
+    generalPath arch paths "packages".toList "source_packages".toList =
+      (match paths.lookup "packages".toList with
+       | some p => some p
+       | none => if arch = "src".toList then paths.lookup "source_packages".toList else none) ∧
+    generalPath arch paths "repository".toList "source_repository".toList =
+      (match paths.lookup "repository".toList with
+       | some p => some p
+       | none => if arch = "src".toList then paths.lookup "source_repository".toList else none) := by
+  have a1 : srcFallbackArches "packages".toList "source_packages".toList = ["src".toList] := by decide
+  have a2 : srcFallbackArches "repository".toList "source_repository".toList = ["src".toList] := by decide
+  have hc : ∀ a : Str, (["src".toList].contains a) = decide (a = "src".toList) := by
+    intro a
+    rw [List.contains_cons, List.contains_nil, Bool.or_false]
+    by_cases h : a = "src".toList
+    · subst h; rfl
+    · rw [decide_eq_false h]; exact beq_eq_false_iff_ne.mpr h
+  unfold generalPath
+  rw [a1, a2, hc]
+  constructor
+  · cases paths.lookup "packages".toList with
+    | some p => rfl
+    | none => simp only [decide_eq_true_eq]
+  · cases paths.lookup "repository".toList with
+    | some p => rfl
+    | none => simp only [decide_eq_true_eq]
+
 /-- what the property says of a document `d` written for tree `t` with requested main variant `mv`:
 family, version, name, arch, platforms of `[general]` equal `[release]` name / version, `"<name> <version>"`, `[tree]`
 arch / platforms; `timestamp` is the decimal form of `int(build_timestamp)` while `[tree] build_timestamp` is
